@@ -193,6 +193,19 @@ class Parser:
                 elif x[1] in (',', ';', '=', '{', '|') and depth == 0: return
             self.next()
 
+    def skip_angle(self):
+        """after a `<` has been consumed: skip to (and consume) its matching close; `>>` closes two levels"""
+        depth = 1
+        while depth > 0:
+            x = self.next()
+            if x[0] == 'eof': raise Unsupported("generic arguments run off")
+            if x[0] == 'op':
+                if x[1] == '<': depth += 1
+                elif x[1] == '>': depth -= 1
+                elif x[1] == '>>': depth -= 2
+                elif x[1] == '->': pass
+        if depth < 0: raise Unsupported("unbalanced generic arguments")
+
     # ---- patterns -------------------------------------------------------------------------------
     def pattern(self):
         alts = [self.pattern1()]
@@ -233,7 +246,7 @@ class Parser:
         while self.atop('::'):
             self.next()
             if self.atop('<'):     # turbofish
-                self.next(); self.skip_type(); self.eatop('>'); continue
+                self.next(); self.skip_angle(); continue
             segs.append(self.eat('id')[1])
         return segs
 
@@ -317,7 +330,7 @@ class Parser:
                 if x[0] == 'num': e = ('field', e, str(x[1])); continue
                 if x[0] != 'id': raise Unsupported("field access")
                 if self.atop('::'):
-                    self.next(); self.eatop('<'); self.skip_type(); self.eatop('>')
+                    self.next(); self.eatop('<'); self.skip_angle()
                 if self.atop('('):
                     e = ('mcall', e, x[1], self.args()); continue
                 e = ('field', e, x[1]); continue
